@@ -543,3 +543,37 @@ func c17configCenterVerbatim(c *Ctx) {
 	sort.Strings(bad)
 	c.R.Check(len(bad) == 0 && n >= 1, rule, pkg+".genValue#verbatim", "the document the configuration center received reaches the format loader byte for byte (the unmarshaler's argument is the conversion of genValue's own parameter)", "-", fmt.Sprintf("%d calls through the unmarshaler field; %s", n, strings.Join(bad, "; ")), bad, n)
 }
+
+// c17yamlNotStrict (C17.R17 / C08.R18, round 8): the three formats accept the same documents. YAML has constructs the
+// other two do not — merge keys (`<<: *base`) followed by an override, two merged anchors that overlap — which yaml.v2's
+// *strict* mode reports as duplicate keys. The converter decodes with the plain entry points: no function of the module
+// calls yaml.UnmarshalStrict or (*yaml.Decoder).SetStrict (valid YAML configuration would be refused while its JSON and
+// TOML renderings load).
+func c17yamlNotStrict(c *Ctx, rule string) {
+	var bad []string
+	sites := 0
+	for _, pk := range c.P.Pkgs {
+		rel := strings.TrimPrefix(pk.PkgPath, mod)
+		for _, fn := range c.P.AllFuncs(rel) {
+			for _, b := range fn.Blocks {
+				for _, ins := range b.Instrs {
+					call, ok := ins.(ssa.CallInstruction)
+					if !ok {
+						continue
+					}
+					cal := call.Common().StaticCallee()
+					if cal == nil || cal.Pkg == nil || !strings.HasPrefix(cal.Pkg.Pkg.Path(), "gopkg.in/yaml.") {
+						continue
+					}
+					sites++
+					if cal.Name() == "UnmarshalStrict" || cal.Name() == "SetStrict" {
+						bad = append(bad, fmt.Sprintf("%s: %s decodes YAML in strict mode (%s)", c.P.Pos(call.Pos()), funcDisplay(fn), cal.Name()))
+					}
+				}
+			}
+		}
+	}
+	sort.Strings(bad)
+	o := c.R.Check(len(bad) == 0 && sites >= 1, rule, "module#yaml-decoding", "YAML is decoded with the plain (non-strict) entry points everywhere in the module: merge keys with overrides are valid YAML", "-", fmt.Sprintf("%d calls into the YAML library; %s", sites, strings.Join(bad, "; ")), bad, sites)
+	o.Sites = sites
+}
